@@ -77,12 +77,20 @@ T2_LAYOUTS_48 = [
     ("LM", [(64, 2), (36, 8)]),
     ("ML", [(30, 1), (66, 1)]),
     ("LNM", [(72, 1), (33, 2)]),
+    # more than one control TLV of a kind
+    ("MM", [(36, 2), (48, 3)]),
+    ("LLM", [(64, 2), (66, 1), (40, 8)]),
 ]
+
+
+THOROUGH_ONLY = ("LLM",)        # 4 x 4 x 5 encodings of the control TLVs
 
 
 def partitions(tier):
     parts = []
     for i, (prefix, rsv) in enumerate(T2_LAYOUTS_48):
+        if tier == "quick" and prefix in THOROUGH_ONLY:
+            continue
         olds = [0, 3] if tier == "quick" else [0, 1, 3, 7]
         # unrestricted contents for short messages (the write-back skipping
         # paths), separated old/new value ranges for the rest
@@ -253,7 +261,7 @@ MUST_REACH = ["oversize_rejected", "empty_message_written", "three_byte_length",
 BOUNDS = {
     "quick": "Type 2: data areas of 48 bytes (13 control-TLV layouts, lengths from boundary sets), 264 bytes with 5..9 bytes of TLVs in front (capacity edge at 254/255), 496 bytes (plain, lock TLV, NULL+memory TLV) with lengths around 254/255/256 and the capacity, one two-sector tag (2032 bytes) written across the sector boundary, NXP products NTAG213/215/203 and Ultralight EV1 through their vendor classes; Type 1: Topaz, static with NULL/memory TLV, Topaz-512, generic dynamic tags (HR0 12h/13h/1Fh; 256, 296, 512 bytes); Type 3: seven (Nbr, Nbw, Nmaxb) triples incl. Nbr 15, a 64 KiB data area, FeliCa Lite/Lite-S vendor classes, and the library's own Type 3 emulation as the tag; Type 4: mapping versions 2 and 3, Type 4A/4B, FSCI 2/5/8, MLe and MLc symbolic over 1..FFFFh, AID versions.  All message bytes and all previous tag contents symbolic (except the 64 KiB and sector-crossing partitions)",
     "thorough": "as quick, plus every message length for the 48-byte Type 2 and 120-byte Type 1 areas, data areas 872/2032, more Type 3 triples, NTAG216, further Type 4 combinations"}
-OUTSIDE = ["data area sizes and layouts other than listed", "more than one lock- and one memory-control TLV",
+OUTSIDE = ["data area sizes and layouts other than listed", "more than two lock- or memory-control TLVs of a kind",
            "message contents of the 64 KiB / sector-crossing partitions (concrete there: the subject is the length and address arithmetic)"]
 ASSUMPTIONS = ["the tag simulators of env/tags.py: plain memory, NAK beyond the physical size (which is larger than the declared data area where a partition says so), Type 4: ISO/IEC 14443-4 PICC rules + ISO/IEC 7816-4 NDEF application with strict Le/Lc/file-size checks",
                "capacity oracle: the harness computes what the layout it generated can hold (harness/worlds.py real_capacity)"]
